@@ -228,7 +228,7 @@ impl Check for C06 {
             Ok(mut r) => {
                 judge_levels(&mut r);
                 // "still replicated later": the closing exchanges must bring every node to LWW
-                let mut conv = RunResult { out: Outcome::default(), ops: vec![], issued: r.issued.clone(), final_rows: r.final_rows.clone(), cfg: r.cfg.clone(), views_hist: Default::default(), set_store_diffs: Default::default(), membership_diffs: Default::default(), read_diffs: Default::default(), membership_stale: Default::default(), direct_misses: Default::default(), checkpoint_diffs: Default::default() };
+                let mut conv = RunResult { out: Outcome::default(), ops: vec![], issued: r.issued.clone(), final_rows: r.final_rows.clone(), cfg: r.cfg.clone(), views_hist: Default::default(), set_store_diffs: Default::default(), membership_diffs: Default::default(), read_diffs: Default::default(), membership_stale: Default::default(), direct_misses: Default::default(), direct_departed: vec![], checkpoint_diffs: Default::default() };
                 judge_convergence(&mut conv);
                 for v in conv.out.violations {
                     r.out.violate(format!("C06/not-replicated-later/{}", v.class.trim_start_matches("C01/")), v.detail);
